@@ -117,9 +117,11 @@ pub fn to_implementation(
 
     let default = preserve_optional(default.map(|d| quote! { ::std::string::String::from(#d)}));
     let schema_expr = quote! {
+        // The aliases are in the namespace of `name`, which is moved into the schema
+        let aliases = #enum_aliases;
         ::apache_avro::schema::Schema::Enum(::apache_avro::schema::EnumSchema {
             name,
-            aliases: #enum_aliases,
+            aliases,
             doc: #doc,
             symbols: vec![#(#symbols.to_owned()),*],
             default: #default,
